@@ -1,6 +1,7 @@
-/- stub: property C03 has no model driver yet -/
+import ActixModel.Drv.C02
+/- C03 shares C02's case grammar, scheduler and output line (`Drv/C02.lean`). -/
 namespace ActixModel.Drv.C03
 
-def run (_line : String) : String := "unimplemented"
+def run (line : String) : String := ActixModel.Drv.C02.run line
 
 end ActixModel.Drv.C03
